@@ -121,7 +121,8 @@ theorem compact_refines (cfg : Cfg K V) (s s' : State K V) (b : Nat) (ids : List
       (∀ o ∈ snap.objs, o.id < s.nextObj) → (∀ v ∈ snap.vecs, v < s.nextObj) →
       (snap.objs.map (·.id)).Nodup →
       ∃ snap', snapAt s'.commits (s.commits.length + 1) = .ok snap' ∧
-        (snap'.objs.flatMap (pay s'.files)).Perm (snap.objs.flatMap (pay s.files)) := by
+        (snap'.objs.flatMap (pay s'.files)).Perm (snap.objs.flatMap (pay s.files)) ∧
+        ∀ o ∈ snap'.objs, o ∈ snap.objs ∨ (fileOf s'.files o.id).isSome = true := by
   unfold compact at h
   split at h
   · cases h
@@ -216,7 +217,13 @@ theorem compact_refines (cfg : Cfg K V) (s s' : State K V) (b : Nat) (ids : List
                           omega)
                     refine ⟨{ objs := S1.objs ++ objs, vecs := S1.vecs ++ (if vec = true then objs.map (fun x => x.id) else []) }, by
                       rw [hlen, commit_snap_ s1 b t _ snap hs1, hacts, play_append, play_append, hS1]
-                      simp only [hadds, hvecs], ?_⟩
+                      simp only [hadds, hvecs], ?_, ?_⟩
+                    rotate_left
+                    · intro o ho
+                      simp only [List.mem_append] at ho
+                      rcases ho with h1 | h1
+                      · rw [hS1o] at h1; exact Or.inl (List.mem_filter.mp h1).1
+                      · exact Or.inr (by rw [commit_files]; exact w.present o h1)
                     -- contents
                     simp only [commit_files, List.flatMap_append]
                     obtain ⟨e, he, hee⟩ := w.ext
